@@ -52,6 +52,15 @@ let () =
       if List.length zs <> nk + nv then "BADCASE"
       else show_sort (srt_sliceby_z (z_of_string mode) (take nk zs) (take nv (drop nk zs)))
     | _ -> "BADCASE");
+  (* c15N ... : same case format as c15S, run by the model variant WITHOUT the depth limit
+     (canary: must differ from the real code on killer inputs) *)
+  Registry.register "c15N" (fun toks -> match toks with
+    | mode :: _ :: nk :: nv :: rest ->
+      let nk = int_of_string nk and nv = int_of_string nv in
+      let zs = List.map z_of_string rest in
+      if List.length zs <> nk + nv then "BADCASE"
+      else show_sort (srt_sliceby_nolimit (srt_less_mode (z_of_string mode)) (take nk zs) (take nv (drop nk zs)))
+    | _ -> "BADCASE");
   (* c15K n limit : killer key sequence built against the model *)
   Registry.register "c15K" (fun toks -> match toks with
     | [n; l] -> String.concat " " (List.map string_of_int (killer (int_of_string n) (l = "1")))
